@@ -227,7 +227,7 @@ def _tall_beside_short(st, hint):
     return l
 
 
-class _trim_sides:
+class _trim_sides:  # (clauses shared by the two instances below; the decorator reads the decorated class's own attributes)
     def ensures(a, r):
         (r0, cvs0), (r1, cvs1) = a.shards.entry_seq
         c0, c1 = cvs0.entry_seq, cvs1.entry_seq
@@ -237,6 +237,8 @@ class _trim_sides:
         yield "result-list-newly-built", isinstance(r, LRef) and r is not a.shards
         yield from operands_untouched(a.shards)
         yield "at-most-one-shard-per-shard", 1 <= len(out) <= 2
+        if not 1 <= len(out) <= 2:
+            return
         yield "no-row-is-lost", sum_(nr for nr, _c in out) == r0 + r1
         yield "first-shard-keeps-its-height-or-takes-over-the-second-one's", out[0][0] == (r0 if len(out) == 2 else r0 + r1)
         w0 = cviews_width(c0)
@@ -263,12 +265,16 @@ class _trim_sides:
 class trim_sides_tall_beside_short(_trim_sides):
     params = dict(shards=S.Custom(_tall_beside_short, "two spelled-out shards: two cviews over none"), left=Int, cols=Int)
     raises = (ValueError, IndexError, _canvas.CanvasError)
+    ensures = _trim_sides.ensures
+    on_raise = _trim_sides.on_raise
 
 
 @contract(CV + "shards_trim_sides", property="C20", alias="two-shards", replayable=False, inline=(CV + "shard_body", CV + "shard_body_tail"))
 class trim_sides_two_shards(_trim_sides):  # ~5900 paths, ~6 min on one core: thorough tier (contracts/tuning.py)
     params = dict(shards=S.Custom(_two_shards, "two spelled-out shards of at most two cviews"), left=Int, cols=Int)
     raises = (ValueError, IndexError, _canvas.CanvasError)
+    ensures = _trim_sides.ensures
+    on_raise = _trim_sides.on_raise
 
 
 def mk_bool_(x):
